@@ -13,6 +13,7 @@ import (
 	"strings"
 	"time"
 
+	"github.com/samaritan-proxy/samaritan/host"
 	"github.com/samaritan-proxy/samaritan/stats"
 )
 
@@ -75,7 +76,42 @@ func (sp *simProxy) snapshot() string {
 	}) {
 		up = 1
 	}
-	return out + fmt.Sprintf(" || upstream_conserved=%d", up)
+	// every gauge of the service: never below zero (an unsigned gauge wraps to a huge number), and where a gauge
+	// <x>_active has the counters <x>_total and <x>_destroy_total beside it: total - destroyed = active
+	gauges := "ok"
+	if !waitFor(2*time.Second, func() bool {
+		cs := map[string]uint64{}
+		for _, c := range stats.Counters() {
+			if strings.HasPrefix(c.Name(), pre) {
+				cs[strings.TrimPrefix(c.Name(), pre)] = c.Value()
+			}
+		}
+		gauges = "ok"
+		for _, g := range stats.Gauges() {
+			if !strings.HasPrefix(g.Name(), pre) {
+				continue
+			}
+			n := strings.TrimPrefix(g.Name(), pre)
+			v := int64(g.Value())
+			if v < 0 {
+				gauges = fmt.Sprintf("BAD:%s=%d", n, v)
+				return false
+			}
+			if strings.HasSuffix(n, "_active") {
+				x := strings.TrimSuffix(n, "_active")
+				t, okT := cs[x+"_total"]
+				d, okD := cs[x+"_destroy_total"]
+				if okT && okD && int64(t)-int64(d) != v {
+					gauges = fmt.Sprintf("BAD:%s=%d,total=%d,destroyed=%d", n, v, t, d)
+					return false
+				}
+			}
+		}
+		return true
+	}) && gauges == "ok" {
+		gauges = "BAD:unsettled"
+	}
+	return out + fmt.Sprintf(" || upstream_conserved=%d || gauges=%s", up, gauges)
 }
 
 func startRedisProxyLimit(seeds []string, limit uint32, events *[]string) *simProxy {
@@ -162,6 +198,9 @@ func runC20(r *rng) (string, string) {
 					}
 				}
 				cl.mu.Unlock()
+			} else if r.chance(1, 4) {
+				// service discovery republishes the host list (unchanged): every backend connection is replaced
+				sp.p.OnSvcAllHostReplace([]*host.Host{host.New(cl.nodes[0].addr), host.New(cl.nodes[1].addr)})
 			} else if r.chance(1, 2) {
 				cl.nodes[x].killConns()
 			} else if !down[x] && len(down) == 0 {
